@@ -81,11 +81,21 @@ func (s msgSpec) admission() (storable bool, open bool, life int64, why string) 
 	if s.TC {
 		return false, false, 0, "truncated"
 	}
+	// NXDOMAIN / SERVFAIL "live at most 30 s / 5 s": a shorter life (e.g. capped by the
+	// reply's own smallest TTL) is within the statement, and for a negative reply that carries
+	// a zero-TTL record the statement has two readings ("zero-TTL replies are never stored" /
+	// "NXDOMAIN lives at most 30 s"): storing it or not are both accepted (open).
+	neg := func(limit int64) (bool, bool, int64, string) {
+		if m, ok := s.minTTL(); ok && m == 0 {
+			return false, true, limit, "negative-with-zero-ttl-record"
+		}
+		return true, false, limit, ""
+	}
 	switch s.Rcode {
 	case dns.RcodeNameError:
-		return true, false, 30, ""
+		return neg(30)
 	case dns.RcodeServerFailure:
-		return true, false, 5, ""
+		return neg(5)
 	case dns.RcodeSuccess:
 		m, ok := s.minTTL()
 		if !ok {
